@@ -281,8 +281,16 @@ def merge(results):
         for k, v in (r.get("bounds") or {}).items():
             if k == "full32":
                 pb.setdefault("bounds", {}).setdefault(k, []).append(v)
+            elif isinstance(v, dict) and "executions" in v and "complete" in v and isinstance(pb.setdefault("bounds", {}).get(k), dict):
+                # one scenario explored by several shards: executions add up, completeness is a conjunction, and the
+                # number of complete deviation layers is the minimum over the shards
+                o = pb["bounds"][k]
+                o["executions"] = o.get("executions", 0) + v.get("executions", 0)
+                o["complete"] = bool(o.get("complete")) and bool(v.get("complete"))
+                if "complete_layers" in v:
+                    o["complete_layers"] = min(o.get("complete_layers", v["complete_layers"]), v["complete_layers"])
             else:
-                pb.setdefault("bounds", {})[k] = v
+                pb.setdefault("bounds", {})[k] = dict(v) if isinstance(v, dict) else v
     rules = [p.get("rule", "") for p in m["parts"].values() if p.get("rule")]
     m["rule"] = " || ".join(dict.fromkeys(rules))
     return m
